@@ -1793,3 +1793,41 @@ def _as_nanos(I, a, d):
 @T.path("std::time::Duration::as_secs_f64", "std::time::Duration::subsec_millis", "std::time::Duration::subsec_nanos")
 def _dur_other(I, a, d):
     raise Inconclusive("Duration API %s" % d.get("raw"))
+
+
+@T.path("std::io::copy")
+def _io_copy(I, a, d):
+    """std::io::copy(&mut reader, &mut writer): read until EOF, write_all each chunk."""
+    r, w_ = a[0], a[1]
+    rv = peel(r)
+    total = 0
+    for _ in range(8):
+        if isinstance(rv, FileObj):
+            try:
+                data = op_read_all(I, rv)
+            except FsErr as e:
+                return ERR(io_err(e.kind, e.injected))
+            n = data.length()
+            done_after = True
+        else:
+            probe = BufObj("array", SBytes((sb.Fill(0, 8192),)))
+            dst = MutBytesRef(probe, 0, 8192)
+            res = I.call_trait_method("Read", "read", [r, dst])
+            if res.vname == "Err":
+                return res
+            n = res.fields[0]
+            data = sb.slice_(probe.sb, 0, n, I.w)
+            done_after = False
+        if is_sym(n):
+            empty = I.w.branch(n == 0, "io-copy-eof")
+        else:
+            empty = n == 0
+        if empty:
+            return OK(total)
+        res = _write_all(I, [w_, BytesRef(data)], d)
+        if res.vname == "Err":
+            return res
+        total = _addv(total, n)
+        if done_after:
+            return OK(total)
+    raise Hang("io::copy does not terminate")
